@@ -32,7 +32,7 @@ ASSUMPTIONS = ["self.server is a normalised (host, port) tuple or a socket path"
                "sockets reclaimed by the garbage collector are not counted as closed"]
 NOT_COVERED = ["TLS over UNIX sockets (the code never wraps them; the TLS clause is read for TCP)", "asynchronous (non-Exception) interruptions: C10",
                "'after any failed call the next call opens a fresh connection' is the conjunction of this contract (raising exit => self.sock is None) with C01 (lazy _connect in every exchange function)"]
-BUDGET = {"quick": 20, "thorough": 60}
+BUDGET = {"quick": 40, "thorough": 120}
 DEPENDS = ["C01"]      # "after any failed call the next call opens a fresh connection": every raising exit of the exchange functions
                        # (_misc_cmd, _store_cmd, _fetch_cmd) leaves self.sock None with the socket closed - their C01 contracts, re-proved here
 
